@@ -142,16 +142,27 @@ def _alarm(signum, frame):
     raise Horizon("execution exceeded its time horizon")
 
 
+_HORIZON_HITS = [0]
+HORIZON_LIMIT = 3
+
+
 class deadline:
+    """SIGALRM horizon for one execution. After HORIZON_LIMIT hits inside one work item the remaining executions of that
+    item fail fast (still reported as horizon violations): a non-terminating configuration must not burn the budget."""
+
     def __init__(self, seconds: float):
         self.seconds = seconds
 
     def __enter__(self):
+        if _HORIZON_HITS[0] >= HORIZON_LIMIT:
+            raise Horizon("skipped: this work item already exceeded its horizon %d times" % HORIZON_LIMIT)
         signal.signal(signal.SIGALRM, _alarm)
         signal.setitimer(signal.ITIMER_REAL, self.seconds)
 
-    def __exit__(self, *exc):
+    def __exit__(self, et, ev, tb):
         signal.setitimer(signal.ITIMER_REAL, 0)
+        if et is not None and issubclass(et, Horizon):
+            _HORIZON_HITS[0] += 1
         return False
 
 
@@ -168,6 +179,7 @@ def _worker_init():
 
 def _call(args):
     func, idx, item = args
+    _HORIZON_HITS[0] = 0
     try:
         return idx, func(item), None
     except BaseException as e:  # harness error inside a worker: never a silent pass
